@@ -15,7 +15,7 @@ import (
 	"verifharness/vlib"
 )
 
-var c11Ages = []int{0, 60, 110, 130, 180, 3600}
+var c11Ages = []int{0, 60, 110, 130, 180, 3600, -1}
 
 func genC11Ops(r *rand.Rand) []vlib.StoreOp {
 	peers := []string{"p1", "p2", "p3", "p4"}[:3+r.Intn(2)]
@@ -119,6 +119,9 @@ func c11Pool(ev *vlib.Evidence, driver string, idx int) (nontrivial, conclusive 
 		}
 		nn := *n
 		nn.LastSeen = time.Now().Add(-time.Duration(age) * time.Second)
+		if age < 0 {
+			nn.LastSeen = time.Time{} // a registration that supplies no check-in time
+		}
 		w.RawStore.SetNode(nn)
 		model.Nodes[id.NodeID].Node.LastSeen = nn.LastSeen
 		model.Nodes[id.NodeID].SeenLo, model.Nodes[id.NodeID].SeenHi = nn.LastSeen, nn.LastSeen
